@@ -678,6 +678,64 @@ def gc_chain_cases(ctx):
                     ctx.fail("the held chain member is not where the edit leaves it", case, classify)
 
 
+def clone_arg_cases(ctx):
+    """clone=True inserts a *copy* of a concrete node, also when that node is detached at the moment: the offered
+    object stays what it was (parentless, reusable), later changes of it do not show in the tree, and it can still be
+    added elsewhere.  (The Coq scripts have no clone argument: checked on the implementation only.)"""
+    def offered(kind):
+        if kind == "tag":
+            return new_tag_node("t", {"k": "v"}, children=["x", impl.tag("i")])
+        if kind == "text":
+            return TextNode("T")
+        if kind == "comment":
+            return new_comment_node("cc")
+        return new_processing_instruction_node("tt", "pp")
+    calls = {
+        "append_children": lambda r, n: r.append_children(n, clone=True),
+        "prepend_children": lambda r, n: r.prepend_children(n, clone=True),
+        "insert_children": lambda r, n: r.insert_children(1, n, clone=True),
+        "add_following_siblings": lambda r, n: r[0].add_following_siblings(n, clone=True),
+        "add_preceding_siblings": lambda r, n: r[0].add_preceding_siblings(n, clone=True),
+        "replace_with": lambda r, n: (r[0].replace_with(n, clone=True), None)[1],
+    }
+    for kind in ("tag", "text", "comment", "pi"):
+        for name, call in calls.items():
+            ctx.count(1, "clone-argument")
+            ctx.nontrivial_case(("clone-argument", kind, name))
+            case = {"scenario": "%s(<detached %s>, clone=True), then the offered node is changed and added elsewhere" % (name, kind), "classes": []}
+            with impl.altered_default_filters():
+                r = Document("<r><a/>b</r>").root
+                n = offered(kind)
+                try:
+                    res = call(r, n)
+                except Exception as e:  # noqa: BLE001
+                    ctx.fail("clone=True with a detached node raises %s" % type(e).__name__, case, classify)
+                    continue
+                inside = any(x is n for x in r.iterate_descendants())
+                if inside or n.parent is not None or (res is not None and any(x is n for x in res)):
+                    ctx.fail("clone=True inserted the offered node itself instead of a copy", case, classify)
+                    continue
+                snapshot = str(r)
+                if kind == "tag":
+                    n.append_children("later")
+                    n.attributes["k"] = "changed"
+                elif kind == "pi":
+                    n.content = "later"
+                else:
+                    n.content = "later"
+                if str(r) != snapshot:
+                    ctx.fail("a change of the offered node shows in the tree it was copied into", dict(case, before=snapshot, after=str(r)), classify)
+                    continue
+                other = Document("<o/>").root
+                try:
+                    other.append_children(n)
+                except Exception as e:  # noqa: BLE001
+                    ctx.fail("the offered node cannot be added elsewhere after clone=True (%s)" % type(e).__name__, case, classify)
+                    continue
+                if not any(x is n for x in other.iterate_children()) or str(r) != snapshot:
+                    ctx.fail("adding the offered node elsewhere afterwards went wrong", case, classify)
+
+
 def check_histories(ctx, recs):
     if not recs:
         return
@@ -716,6 +774,7 @@ def run(ctx, args):
     quick = ctx.tier == "quick"
     recs = []
     gc_chain_cases(ctx)
+    clone_arg_cases(ctx)
     with no_gc():
         if args.replay:
             with open(args.replay) as f:
